@@ -41,7 +41,9 @@ var limits = []string{
 // numeric string over the numeric alphabet, biased to 17-21 digits and the limits
 func numString() *rapid.Generator[string] {
 	frag := rapid.OneOf(
-		rapid.SampledFrom([]string{"+", "-", ".", "e", "E", "x", " ", "e+", "e-", "E-", "0", "00", "1", "9", "..", "--", "+-"}),
+		rapid.SampledFrom([]string{"+", "-", ".", "e", "E", "x", " ", "e+", "e-", "E-", "0", "00", "1", "9", "..", "--", "+-",
+			// the characters next to the digits in ASCII and those that share bits with them
+			"/", ":", ";", "<", "=", ">", "?", "@", "\x10", "\x19", "p", "y", "\xb0", "\xb9", "٣", "３"}),
 		rapid.StringOfN(rapid.SampledFrom([]rune("0123456789")), 1, 6, -1),
 		rapid.StringOfN(rapid.SampledFrom([]rune("0123456789")), 15, 22, -1),
 		rapid.SampledFrom(limits),
@@ -138,7 +140,7 @@ func floatLiteral() *rapid.Generator[string] {
 				sb.WriteString(stdstrconv.Itoa(rapid.IntRange(0, 400).Draw(t, "exp")))
 			}
 		}
-		sb.WriteString(rapid.SampledFrom([]string{"", "", "", "x", ".", "e", "e+", "-", " ", ".5", "e5"}).Draw(t, "junk"))
+		sb.WriteString(rapid.SampledFrom([]string{"", "", "", "x", ".", "e", "e+", "-", " ", ".5", "e5", ":", "/", "?", ";1"}).Draw(t, "junk"))
 		return sb.String()
 	})
 }
@@ -212,7 +214,12 @@ func checkPrefix(t *rapid.T, pre, out []byte) []byte {
 	if len(out) < len(pre) || !bytes.Equal(out[:len(pre)], pre) {
 		t.Fatalf("destination prefix %q not preserved: %q", pre, out)
 	}
-	return out[len(pre):]
+	// the result is the caller's: it is taken down and then overwritten, which changes nothing for later calls
+	res := append([]byte(nil), out[len(pre):]...)
+	for i := range out {
+		out[i] = '#'
+	}
+	return res
 }
 
 // ---------- parsers
